@@ -315,9 +315,11 @@ func TestC17(t *testing.T) {
 		if err = json.Unmarshal(bz, &h2); err != nil {
 			t.Fatal(err)
 		}
+		var refExports []string
+		refExportName := ""
 		for ri, mode := range inprocModes {
 			name := fmt.Sprintf("inproc-%d-%s", ri, mode)
-			lines, st, err := replayMode(&h2, mode, "", workDir, hseed*131+int64(ri))
+			lines, exports, st, err := replayModeX(&h2, mode, "", workDir, hseed*131+int64(ri), true)
 			for k, v := range st {
 				out.Stats.Hist["replica:"+mode+":"+k] += v
 			}
@@ -328,6 +330,30 @@ func TestC17(t *testing.T) {
 			executions++
 			out.Count("replica:" + mode)
 			compare(out, g.hist, g.kinds, histPath, "parent-generator", ref, name, lines)
+			// genesis export -> import: compared between the replicas (the generator's own execution does not export)
+			if refExportName == "" {
+				refExports, refExportName = exports, name
+				for _, e := range exports {
+					switch {
+					case strings.Contains(e, "import: "):
+						imp := e[strings.Index(e, "import: ")+8:]
+						out.Count("export+import:" + imp[:min(len(imp), 9)])
+					case strings.Contains(e, "export=panic") || strings.Contains(e, "export=err"):
+						out.Count("export:failed")
+					default:
+						out.Count("export:ok")
+					}
+				}
+			} else if strings.Join(exports, "\n") != strings.Join(refExports, "\n") {
+				first := "<count>"
+				for i := 0; i < len(exports) && i < len(refExports); i++ {
+					if exports[i] != refExports[i] {
+						first = refExports[i] + "  VS  " + exports[i]
+						break
+					}
+				}
+				out.ViolateWith(fmt.Sprintf("nondeterminism: genesis export / import observations differ between executions (%s vs %s): %.300s", refExportName, name, first), describeHistory(g.hist, histPath))
+			}
 		}
 
 		// (b) fresh processes, started one second apart
